@@ -69,6 +69,9 @@ const REF_BOUNDS: &[&str] = &[
     "core::fmt::Debug",
     #[cfg(feature = "nanoserde")]
     "nanoserde::SerBin",
+    // the SerBin impls of the borrowed unordered collection diffs are bounded by DeBin as well
+    #[cfg(feature = "nanoserde")]
+    "nanoserde::DeBin",
     #[cfg(feature = "serde")]
     "serde::Serialize",
 ];
